@@ -138,6 +138,13 @@ func genMetrics(r *rng.R, tag string, n int) pmetric.Metrics {
 // genMetricsPad: as genMetrics; with pad > 0 every data point carries a distinct attribute value of
 // pad bytes, so that a moderate number of points fills more than one frame of the writer.
 func genMetricsPad(r *rng.R, tag string, n, pad int) pmetric.Metrics {
+	return genMetricsPadKind(r, tag, n, pad, false)
+}
+
+// genMetricsPadKind: with asBytes the pad is a BYTES attribute: bytes values are not dictionary
+// encoded, so a large batch grows the writer's frame (up to its frame size limit) and not its
+// dictionaries (whose limit would end the frame first).
+func genMetricsPadKind(r *rng.R, tag string, n, pad int, asBytes bool) pmetric.Metrics {
 	md := pmetric.NewMetrics()
 	left := n
 	idx := 0
@@ -214,7 +221,13 @@ func genMetricsPad(r *rng.R, tag string, n, pad int) pmetric.Metrics {
 				for l := 0; l < np; l++ {
 					dp := dps.AppendEmpty()
 					dp.Attributes().PutStr("vid", fmt.Sprintf("%s-%d", tag, idx))
-					if pad > 0 {
+					if pad > 0 && asBytes {
+						b := []byte(fmt.Sprintf("%s-%d-", tag, idx))
+						for x := 0; x < pad; x++ {
+							b = append(b, byte(r.U64())) // incompressible
+						}
+						dp.Attributes().PutEmptyBytes("padb").FromRaw(b)
+					} else if pad > 0 {
 						dp.Attributes().PutStr("pad", fmt.Sprintf("%s-%d-", tag, idx)+strings.Repeat(string(rune('a'+idx%26)), pad))
 					}
 					idx++
